@@ -291,6 +291,10 @@ func (q QSpec) render() string {
 		switch m.Kind {
 		case "truncate":
 			text = string(rs[:pos])
+		case "truncate-eol":
+			// cut, then end the text with line terminators: the error sits at the end of input, whose
+			// line/column depends on every trailing terminator reaching the parser
+			text = strings.TrimRight(string(rs[:pos]), " \t\r\n,") + m.Arg
 		case "delete":
 			if pos < len(rs) {
 				text = string(rs[:pos]) + string(rs[pos+1:])
@@ -729,7 +733,9 @@ func genOp(r *hx.Rand) (QSpec, Op) {
 	if r.Chance(1, 8) {
 		text := []rune(q.render())
 		m := &TextMut{}
-		switch r.Intn(6) {
+		switch r.Intn(7) {
+		case 6:
+			m.Kind, m.Pos, m.Arg = "truncate-eol", r.Intn(len(text)+1), hx.Pick(r, []string{"\n", "\r\n", "\n\n", "\r", "\n\r\n ", "\n\n\n"})
 		case 0:
 			m.Kind, m.Pos = "truncate", r.Intn(len(text)+1)
 		case 1:
@@ -800,6 +806,18 @@ func handOps() []Op {
 		{Query: "\ufeff{ __typename }"},
 		{Query: "{\r\n  nope\r\n}"},
 		{Query: "query Q { __typename }", OpName: "Q", Vars: sp(`{"unused": [1, 2, 3]}`)},
+		// errors at the end of input, after trailing line terminators
+		{Query: "{\n  echoInt(x: 1)\n"},
+		{Query: "{\n  echoInt(x: 1)\r\n"},
+		{Query: "{ echoInt(x: 1)\n\n\n"},
+		{Query: "query Q(\n"},
+		{Query: "query Q($a: Int\r\n\r\n"},
+		{Query: "{ thing {\r"},
+		{Query: "{ echoString(s: \"abc\n"},
+		{Query: "{ __typename }\n\n"},
+		{Query: "# comment only\n"},
+		{Query: "\n"},
+		{Query: "\r\n"},
 		// asymmetric wrapper chains: [T!] vs [T]!
 		{Query: "{ a: itemsA(withNull: true) { id } b: itemsB(withNull: true) { id } }"},
 		{Query: "{ itemsA { id } itemsB { name } grid(withNull: true) { id } }"},
